@@ -111,6 +111,8 @@ func execRules(c *Ctx, full bool) {
 	}
 	c.Rule("R09n", ruleTextDirRestored, 1)
 	checkDirRestored(c, "R09n")
+	c.Rule("R09p", ruleTextNotFoundOnly, 2)
+	checkNotFoundOnly(c, "R09p")
 	c.Rule("R09o", ruleTextLastCheckpoint, 1)
 	checkLastCheckpoint(c, "R09o")
 	c.Rule("R09m", "Execute never makes progress under a stale Total: every statement execution (ExecContext, directly or through a helper) is preceded on every path by a store of Revision.Total from the current statement count (constructor literal or assignment), so each later write of the revision — per statement, deferred, or none because the process died — leaves Applied < Total while statements remain. (The refresh must not precede the history check: R12c.)", 1)
